@@ -1117,4 +1117,132 @@ theorem C14_folder_restore_request (n : Node) (F : String) (G : Folder) (hon : n
   · split <;> rfl
   · intro hd; simp only [hd, if_true]; split <;> rfl
 
+
+/-! ## 6. timing: the whole-node scan fans out after exactly `max(1, node_scan_duration)` timesteps of a powered-on node -/
+
+theorem powerOn_scanCd (n : Node) : n.powerOn.scanCd = n.scanCd := by
+  unfold Node.powerOn; (repeat' split) <;> rfl
+theorem powerOff_scanCd (n : Node) : n.powerOff.scanCd = n.scanCd := by
+  unfold Node.powerOff; (repeat' split) <;> rfl
+theorem powerPhase_scanCd (n : Node) : n.powerPhase.scanCd = n.scanCd := by
+  have hb : n.bootPhase.scanCd = n.scanCd := by unfold Node.bootPhase; (repeat' split) <;> rfl
+  have hs : ∀ m : Node, m.shutPhase.scanCd = m.scanCd := by
+    intro m
+    unfold Node.shutPhase
+    split
+    · rfl
+    · split
+      · simp only []
+        split
+        · rw [powerOn_scanCd]; rfl
+        · rfl
+      · rfl
+  unfold Node.powerPhase; rw [hs, hb]
+
+theorem apply_scanCd (n : Node) (op : Op) :
+    (n.apply op).scanCd =
+      match op with
+      | .tick => if n.powerPhase.power = .on ∧ n.scanCd > 0 then n.scanCd - 1 else n.scanCd
+      | .osScan => if n.power = .on then max n.scanDur 1 else n.scanCd
+      | _ => n.scanCd := by
+  cases op <;> simp only [Node.apply]
+  case tick =>
+    unfold Node.tick
+    simp only []
+    by_cases hon : n.powerPhase.power = .on
+    · simp only [hon, if_true, true_and, Node.itemPhase, mapFolders_scanCd, mapSws_scanCd]
+      have hps := powerPhase_scanCd n
+      unfold Node.scanPhase
+      (repeat' split) <;> (try simp only [mapFolders_scanCd, mapSws_scanCd]) <;> omega
+    · simp only [hon, if_false, false_and]
+      exact powerPhase_scanCd n
+  case shutdown => split <;> first | exact powerOff_scanCd n | rfl
+  case startup => split <;> first | exact powerOn_scanCd n | rfl
+  case reset => split <;> first | exact powerOff_scanCd _ | rfl
+  case osScan => split <;> rfl
+  all_goals ((repeat' split) <;> rfl)
+
+/-- **C14 node scan timing, part 1 (not early).** With `c` on the node-scan countdown and no new `os scan` request
+in between (a new request restarts the countdown — unlike folders it is not ignored), the countdown is `c` minus the
+number of timesteps that reached the node's items, as long as that number is below `c`. -/
+theorem C14_node_scan_not_early (ops : List Op) : ∀ (n : Node) (c : Int),
+    n.scanCd = c → (∀ op ∈ ops, op ≠ .osScan) → (effTicks n ops : Int) < c →
+    (n.run ops).scanCd = c - effTicks n ops := by
+  induction ops with
+  | nil => intro n c hc _ _; simpa [effTicks, Node.run] using hc
+  | cons op ops ih =>
+    intro n c hc hq hk
+    simp only [effTicks] at hk ⊢
+    simp only [Node.run]
+    have hq' : ∀ o ∈ ops, o ≠ .osScan := fun o ho => hq o (List.mem_cons_of_mem _ ho)
+    have hop : op ≠ .osScan := hq op List.mem_cons_self
+    have h0 : (0 : Int) ≤ (effTicks (n.apply op) ops : Int) := Int.natCast_nonneg _
+    by_cases he : effTick n op = true
+    · simp only [he, if_true] at hk ⊢
+      have hop' : op = .tick ∧ n.powerPhase.power = .on := by
+        simpa [effTick] using he
+      have h1 : (n.apply op).scanCd = c - 1 := by
+        rw [apply_scanCd, hop'.1]
+        simp only [hop'.2, true_and]
+        rw [if_pos (by omega), hc]
+      rw [ih (n.apply op) (c - 1) h1 hq' (by omega)]
+      omega
+    · have he' : effTick n op = false := by simpa using he
+      simp only [he', Bool.false_eq_true, if_false, Nat.zero_add] at hk ⊢
+      have h1 : (n.apply op).scanCd = c := by
+        rw [apply_scanCd]
+        cases op <;> simp only [] <;> try exact hc
+        · have : ¬ n.powerPhase.power = .on := by simpa [effTick] using he'
+          simp [this, hc]
+        · exact absurd rfl hop
+      exact ih (n.apply op) c h1 hq' hk
+
+/-- **C14 node scan fan-out.** In the timestep in which the countdown stands at 1 on a node that is ON after its power
+phase, the scan covers EVERY software item (services and applications alike, whatever their operating state) and
+every live file of every live folder: their visible health becomes their actual health at that moment; the countdown
+returns to 0. -/
+theorem C14_node_scan_fans_out (n : Node) (hc : n.scanCd = 1) (ht : effTick n .tick = true) :
+    (n.apply .tick).scanCd = 0 ∧
+    (∀ (i : Nat) (x : Sw), n.sws[i]? = some x →
+      ∃ x' : Sw, (n.apply .tick).sws[i]? = some x' ∧ x'.name = x.name ∧ x'.visible = (powerEff n x).actual) ∧
+    (∀ (j : Nat) (G : Folder) (k : Nat) (f : File), n.folders[j]? = some G → G.files[k]? = some f →
+      G.deleted = false → f.deleted = false →
+      ∃ (G' : Folder) (f' : File), (n.apply .tick).folders[j]? = some G' ∧ G'.files[k]? = some f' ∧ f'.name = f.name ∧
+        f'.visible = f.actual) := by
+  have hon : n.powerPhase.power = .on := by simpa [effTick] using ht
+  refine ⟨?_, ?_, ?_⟩
+  · rw [apply_scanCd]; simp [hon, hc]
+  · intro i x hx
+    have hf : swScanCompletes n .tick (swMoment n .tick x) = true := by
+      simp [swScanCompletes, Node.scanFires, hon, powerPhase_scanCd, hc]
+    obtain ⟨x', h1, h2⟩ := C14_sw_scan_sets_visible n .tick i x hx hf
+    refine ⟨x', h1, ?_, h2⟩
+    rw [apply_sws, List.getElem?_map, hx] at h1
+    simp only [Option.map_some, Option.some.injEq] at h1
+    rw [← h1]; exact (swEff_name n .tick x).1
+  · intro j G k f hG hf hGd hfd
+    have hc' : fileScanCompletes n .tick G f = true := by
+      simp [fileScanCompletes, hon, hGd, hfd, powerPhase_scanCd, hc]
+    obtain ⟨G', f', h1, h2, h3⟩ := C14_file_scan_sets_visible n .tick j k G f hG hf hc'
+    refine ⟨G', f', h1, h2, ?_, h3⟩
+    rw [apply_folders, List.getElem?_map, hG] at h1
+    simp only [Option.map_some, Option.some.injEq] at h1
+    subst h1
+    rw [folderEff_files, List.getElem?_map, hf] at h2
+    simp only [Option.map_some, Option.some.injEq] at h2
+    rw [← h2]; exact fileEff_name n .tick G f
+
+/-- **C14 node scan timing, part 2 (on time).** -/
+theorem C14_node_scan_completes_on_time (ops : List Op) (n : Node) (c : Int) (hc : n.scanCd = c)
+    (hq : ∀ op ∈ ops, op ≠ .osScan) (hk : (effTicks n ops : Int) + 1 = c) (ht : effTick (n.run ops) .tick = true) :
+    (n.run ops).scanCd = 1 ∧ (n.run ops).powerPhase.scanFires = true ∧ ((n.run ops).apply .tick).scanCd = 0 := by
+  have h1 : (n.run ops).scanCd = 1 := by rw [C14_node_scan_not_early ops n c hc hq (by omega)]; omega
+  have hon : (n.run ops).powerPhase.power = .on := by simpa [effTick] using ht
+  exact ⟨h1, by simp [Node.scanFires, hon, powerPhase_scanCd, h1], (C14_node_scan_fans_out _ h1 ht).1⟩
+
+/-- An accepted `os scan` request loads `max(node_scan_duration, 1)` (also while a scan is running). -/
+theorem C14_node_scan_request (n : Node) (hon : n.power = .on) :
+    (n.apply .osScan).scanCd = max n.scanDur 1 := by
+  rw [apply_scanCd]; simp [hon]
+
 end Primaite.Health
